@@ -36,7 +36,7 @@ Reset == /\ Ev.ev = "reset"
          /\ leak' = [w \in DOMAIN Ev.case.spec.blocks |-> {}]
          /\ bad' = FALSE
 
-Skip == Ev.ev \in {"push", "stopped", "query", "builderr"} /\ UNCHANGED <<cfg, latest, answers, leak, bad>>
+Skip == Ev.ev \in {"push", "stopped", "query", "builderr", "worker-exit", "coordinator-exit", "timeout"} /\ UNCHANGED <<cfg, latest, answers, leak, bad>>
 
 Fire == /\ Ev.ev = "fire"
         /\ IF Ev.win \notin Wins THEN PrintT(<<"FAIL", cfg.run, "firing of an unknown window", l>>) /\ bad' = TRUE /\ UNCHANGED <<cfg, latest, answers, leak>>
